@@ -146,6 +146,32 @@ def run(chk, repo, tier):
         if okc and len(ends) == 1:
             s = wa[2]
             okd = s.lo == nf.index(ends[0].result, C(0)) and s.hi == nf.index(ends[0].result, C(1)) + 1
+    # a spectrum is left as it is only when there is nothing to trim: all values zero (documented), or both end indices
+    # already at the ends of the array
+    skip_bad, n_skip = [], 0
+    for p in [x for x in pp if x.status != 'raise']:
+        if stores(p):
+            continue
+        n_skip += 1
+        from ..rules import literals
+        lits = literals(p.conds)
+        allzero = any(not pol and any(is_app(a, ('any', 'm:any', 'count_nonzero')) for a in nf.value_atoms(c)) for c, pol in lits) or \
+            any(pol and any(is_app(a, ('all', 'm:all')) for a in nf.value_atoms(c)) for c, pol in lits)
+        if allzero:
+            continue
+        ends_ = p.calls(f'{SPEC}.ends')
+        if len(ends_) != 1:
+            skip_bad.append(f'returns unchanged when {conds_str(p)[:100]}')
+            continue
+        lo_i, hi_i = nf.index(ends_[0].result, C(0)), nf.index(ends_[0].result, C(1))
+        has_lo = any(pol and is_app(c.single_atom() or ('x',), 'eq') and {nf.vkey(x) for x in c.single_atom()[2]} == {nf.vkey(lo_i), nf.vkey(C(0))}
+                     for c, pol in lits if isinstance(c, Poly))
+        has_hi = any(pol and is_app(c.single_atom() or ('x',), 'eq') and nf.vkey(hi_i) in {nf.vkey(x) for x in c.single_atom()[2]}
+                     for c, pol in lits if isinstance(c, Poly))
+        if not (has_lo and has_hi):
+            skip_bad.append(f'returns without trimming when {conds_str(p)[-120:]}: that does not say that both ends are already tight')
+    chk.ob('C15-d', 'D-guard', f.key, 'the spectrum is left untrimmed only when both ends are tight already (or all values are zero)',
+           (not skip_bad) if n_skip else None, '; '.join(skip_bad[:2]) or f'{n_skip} untouched path(s)', f.loc())
     chk.ob('C15-b', 'D-pairing', f.key, 'wave and value sliced identically', okb, '', f.loc())
     chk.ob('C15-c', 'D-selection', f.key, 'retained samples are a slice of the original arrays', okc, '', f.loc())
     chk.ob('C15-d', 'T-comparison', f.key, 'keeps index_min .. index_max inclusive', okd, '', f.loc())
